@@ -6,3 +6,5 @@ from . import overlap_result  # noqa: F401
 from . import indexed_assembly  # noqa: F401
 from . import format  # noqa: F401
 from . import fasta  # noqa: F401
+from . import assembly_sort  # noqa: F401
+from . import cli_files  # noqa: F401
